@@ -400,7 +400,10 @@ class StrictLookup(LookupBase):
 def _parse(source, mode='eval'):
     source = source.strip()
     if mode == 'exec':
-        lines = [line.expandtabs() for line in source.splitlines()]
+        # tabs are expanded in the indentation only: elsewhere (in a string
+        # literal) they are part of the code
+        lines = [line[:len(line) - len(line.lstrip())].expandtabs()
+                 + line.lstrip() for line in source.splitlines()]
         if lines:
             first = lines[0]
             rest = dedent('\n'.join(lines[1:])).rstrip()
